@@ -91,6 +91,18 @@ def gen_cases(tier, seed):
                 for na in (2, 3, 4):
                     yield {"w": "unary", "op": op, "shape": list(shp), "na": na, "orders": "all" if na <= 3 else "random", "cancel": True,
                            "cseed": int(seed) * 104729 + next(cs)}
+    # reducers other than the sum: every one of them when only modes of size 1 are removed (each entry is a group of its own, and some
+    # reducers give zero for a group of one) and over ordinary modes; the aggregating constructor with every reducer form
+    for fun in ("np.max", "np.min", "np.ptp", "np.var", "absmax"):
+        for shp, dims in (((3, 1, 2), "singletons"), ((1, 3, 2, 1), "singletons"), ((2, 1, 1, 3), "singletons"), ((2, 1, 3), None), ((3, 4), None), ((2, 2, 3), None)):
+            for na in (1, 2, 3) if tier == "quick" else (1, 2, 3, 4, 6):
+                yield {"w": "unary", "op": "collapse", "shape": list(shp), "na": na, "orders": "all" if na <= 4 else "random",
+                       "force": {"fun": fun, "dims": dims}, "cseed": int(seed) * 104729 + next(cs)}
+    for fun in ("np.sum", "np.max", "np.min", "max", "min", "smax", "smin"):
+        for shp in ((2, 3, 2), (12,), (4, 3)):
+            for na in (1, 2, 3, 4) if tier == "quick" else (1, 2, 3, 4, 7):
+                yield {"w": "unary", "op": "from_aggregator", "shape": list(shp), "na": na, "orders": "all" if na <= 4 else "random",
+                       "force": {"fun": fun}, "cseed": int(seed) * 104729 + next(cs)}
     # contraction of two modes of a tensor with two or more remaining modes: several diagonal entries that agree in every remaining mode
     # are summed into one stored entry (and dropped when they cancel)
     for _ in range(2 if tier == "quick" else 10):
@@ -211,6 +223,12 @@ def run_case(case, ctx):
                 B = np.where((A != 0) & (rng.random(shape) < 0.7), A if rng.random() < 0.5 else A * 2, B)
         nb = 0 if B is None else int(np.count_nonzero(B))
     params = _params(op, rng, shape, A)
+    for k_, v_ in (case.get("force") or {}).items():
+        if k_ == "dims":
+            if v_ == "singletons":
+                params["dims"] = [n for n in range(len(shape)) if shape[n] == 1]
+        elif na or k_ != "fun" or op != "collapse":
+            params[k_] = v_
     if case.get("cancel"):
         N_ = len(shape)
         A = np.zeros(shape)
@@ -336,6 +354,13 @@ def _params(op, rng, shape, A):
     elif op in ("collapse",):
         k = int(rng.integers(1, N + 1))
         p["dims"] = sorted(int(x) for x in rng.permutation(N)[:k])
+        # the reducer is applied to the stored values of each remaining position (order-independent reducers only); some give zero
+        # for a group of one (range, variance): such a result is dropped, also when only modes of size 1 are removed
+        p["fun"] = ["sum", "sum", "np.max", "np.min", "np.ptp", "np.var", "absmax"][int(rng.integers(0, 7))]
+        if not np.count_nonzero(A):
+            p["fun"] = "sum"                  # (a reducer without a value for "no values at all" is not asked about an empty tensor)
+        if p["fun"] in ("np.ptp", "np.var") and rng.random() < 0.5 and 1 in shape:
+            p["dims"] = [n for n in range(N) if shape[n] == 1]
     elif op == "contract":
         p["ij"] = None
         pairs = [(i, j) for i in range(N) for j in range(N) if i != j and shape[i] == shape[j]]
@@ -409,7 +434,25 @@ def _params(op, rng, shape, A):
         p["more"] = bool(rng.integers(0, 2))
     elif op == "from_aggregator":
         p["dup"] = [int(x) for x in rng.integers(1, 3, size=max(1, int(np.count_nonzero(A))))]
+        p["fun"] = ["default", "np.sum", "np.max", "np.min", "max", "min", "smax", "smin"][int(rng.integers(0, 8))]
     return p
+
+
+def _absmax(x):
+    return float(np.max(np.abs(x)))
+
+
+_REDUCERS = {"sum": np.sum, "np.sum": np.sum, "np.max": np.max, "np.min": np.min, "max": max, "min": min, "smax": "max", "smin": "min",
+             "np.ptp": np.ptp, "np.var": np.var, "absmax": _absmax}
+_REDUCE_REF = {"sum": np.sum, "np.sum": np.sum, "np.max": np.max, "np.min": np.min, "max": np.max, "min": np.min, "smax": np.max, "smin": np.min,
+               "np.ptp": np.ptp, "np.var": np.var, "absmax": _absmax}
+# how many times a position is listed in the aggregating constructor, and what multiples of its value are listed (in this order: the
+# largest / smallest member is neither first nor last when there are three or more)
+_MEMBERS = {1: [1.0], 2: [1.0, 2.0], 3: [1.0, 3.0, 2.0], 4: [2.0, 1.0, 4.0, 3.0]}
+
+
+def _members_of(lin):
+    return _MEMBERS[1 + int(lin) % 4]
 
 
 def _invoke(op, SA, SB, p):
@@ -463,7 +506,9 @@ def _invoke(op, SA, SB, p):
     if op == "reshape":
         return SA.reshape(tuple(p["new_shape"]))
     if op == "collapse":
-        return SA.collapse(np.array(p["dims"]))
+        if p.get("fun", "sum") == "sum":
+            return SA.collapse(np.array(p["dims"]))
+        return SA.collapse(np.array(p["dims"]), _REDUCERS[p["fun"]])
     if op == "contract":
         if p["ij"] is None:
             return 0.0
@@ -523,6 +568,11 @@ def _invoke(op, SA, SB, p):
         subs, vals = SA.subs, SA.vals
         if SA.nnz == 0:
             return ttb.sptensor.from_aggregator(np.empty((0, SA.ndims), dtype=int), np.empty((0, 1)), SA.shape)
+        if p.get("fun", "default") != "default":
+            lin = np.ravel_multi_index(tuple(subs.T), SA.shape)
+            s2 = np.concatenate([np.repeat(subs[i:i + 1], len(_members_of(lin[i])), axis=0) for i in range(subs.shape[0])], axis=0)
+            v2 = np.concatenate([float(vals[i, 0]) * np.array(_members_of(lin[i])) for i in range(subs.shape[0])]).reshape(-1, 1)
+            return ttb.sptensor.from_aggregator(s2, v2, SA.shape, _REDUCERS[p["fun"]])
         rep = np.array(p["dup"][: subs.shape[0]] + [1] * max(0, subs.shape[0] - len(p["dup"])))
         s2 = np.repeat(subs, rep, axis=0)
         v2 = np.repeat(vals / rep[:, None], rep, axis=0)
@@ -602,7 +652,18 @@ def _reference(op, A, B, p):
             used = [np.unique(np.argwhere(A != 0)[:, n]) for n in range(A.ndim)] if np.count_nonzero(A) else None
             return None if used is None else A[np.ix_(*used)]
         if op == "collapse":
-            return refops.collapse(A, p["dims"], np.sum)
+            if p.get("fun", "sum") == "sum":
+                return refops.collapse(A, p["dims"], np.sum)
+            # the reducer sees the stored (non-zero) values of each remaining position only
+            f = _REDUCE_REF[p["fun"]]
+            rem = [n for n in range(A.ndim) if n not in p["dims"]]
+            out = np.zeros([A.shape[n] for n in rem])
+            groups = {}
+            for pos in np.argwhere(A != 0):
+                groups.setdefault(tuple(int(pos[n]) for n in rem), []).append(float(A[tuple(pos)]))
+            for k_, v_ in groups.items():
+                out[k_] = f(np.array(v_))
+            return out if rem else float(out)
         if op == "contract":
             return 0.0 if p["ij"] is None else refops.contract(A, *p["ij"])
         if op == "ttv":
@@ -656,5 +717,11 @@ def _reference(op, A, B, p):
         if op == "spmatrix":
             return A if A.ndim == 2 else 0.0
         if op == "from_aggregator":
-            return A
+            if p.get("fun", "default") == "default":
+                return A
+            out = np.zeros(A.shape)
+            for pos in np.argwhere(A != 0):
+                lin = np.ravel_multi_index(tuple(pos), A.shape)
+                out[tuple(pos)] = _REDUCE_REF[p["fun"]](float(A[tuple(pos)]) * np.array(_members_of(lin)))
+            return out
     return None
